@@ -6,6 +6,7 @@ props = [json.loads(l) for l in open(os.path.join(V, "properties.jsonl"))]
 
 ENGINES = {
  "task": ("harness/task.cpp", "exhaustive ordering enumerator on the real promise/task under ASan/UBSan/LSan with counters"),
+ "atm": ("harness/atm.cpp", "QXmppAtmManager + memory storage behind a real (unconnected) QXmppClient, driven by manual decisions and injected decrypted messages; full state snapshot after every step"),
  "caps": ("harness/caps.cpp", "QXmppDiscoveryIq::verificationString() for setter-built and XML-parsed info sets; Python XEP-0115 oracle"),
  "codec": ("harness/codec.cpp", "registry of 125 parse/toXml pairs of the library; DOM mutators, transparent-position probing, canonical comparison; under ASan/UBSan"),
  "msg": ("harness/msg.cpp", "QXmppMessage split into public/sensitive parts the way the encrypted send path and the OMEMO manager do it, and recovered from both parts"),
@@ -46,6 +47,10 @@ CHECKS["C20"] = dict(engine="caps", cat="exploration",
    text="random info sets (identities incl. ones differing in one component, repeated features, FORM_TYPE forms with multi-valued fields; ASCII/Latin-1/CJK/high-BMP/astral alphabets) hashed by the real verificationString() in 5 permutations each (setters and XML parse) plus one single-element perturbation; compared with an independent Python XEP-0115 5.1 implementation (octet collation)",
    note="Python hashlib and our reading of XEP-0115; the advertised-vs-answered half (presence <c ver> vs disco#info reply) is checked through the wire engine",
    tech="runtime monitoring: differential oracle (independent Python XEP-0115) + metamorphic relations (permutation, duplication, perturbation), under ASan/UBSan")
+CHECKS["C18"] = dict(engine="atm", cat="exploration",
+   text="histories over {manual authenticate/distrust, trust message(sender account, sender key, own-device / own-other-device / contact, 1-2 owners, trusted/distrusted subsets, foreign usage)} on a universe of 3 accounts and 10 keys under both security policies: exhaustive words of length <= 2 (quick) / 3 (thorough) over a 26-step alphabet plus 20000 / 10^6 random histories of length <= 25; after every step the full trust state is read back and judged by frame conditions F1-F5 (who may cause which change, held-back decisions fire exactly on authentication and are discarded on distrust)",
+   note="frame conditions are our reading of the statement/XEP-0450; memory storage back end only",
+   tech="runtime monitoring: offline checker of frame conditions over recorded state snapshots (history + reachability of justification chains), under ASan/UBSan")
 REASON_TODO = "check not built yet in this session (planned, see DESIGN.md §2)"
 
 def main():
